@@ -298,6 +298,10 @@ def gen(rng, tier):
             p["crval"][1] = round(rng.uniform(-55, 55), 6)
         (x0, x1), (y0, y1) = p["bbox"]
         designed = rng.random() < 0.6
+        if designed:
+            # "pixel axes aligned with the sky axes": the convergence claim is made for |rotation| <= 0.5 deg only (at 1.5 deg the
+            # plain fixed-point iteration already fails for a few points in the column through the reference pixel)
+            p["rot"] = round(rng.choice([0.0, rng.uniform(-0.5, 0.5)]), 3)
         pix, where = [], []
         for _p in range(rng.randint(3, 12)):
             r = rng.random()
@@ -307,6 +311,15 @@ def gen(rng, tier):
             else:
                 pix.append([rng.uniform(x0, x1) + rng.choice([-1, 1]) * rng.uniform(2000, 60000), rng.uniform(y0, y1) + rng.choice([-1, 1]) * rng.uniform(2000, 60000)])
                 where.append("far")
+        if rng.random() < 0.25:
+            # field straddling the RA = 0/360 meridian: points within about a pixel of it (the longitude difference must be wrapped
+            # symmetrically on both sides)
+            p["crval"][0] = 0.0
+            for _m in range(80):
+                xm = p["crpix"][0] + rng.uniform(-3.0, 3.0)
+                ym = rng.uniform(y0 + 1, y1 - 1)
+                pix.append([xm, ym])
+                where.append("in" if x0 + 1 <= xm <= x1 - 1 else "far")
         nan_at = [rng.randrange(len(pix))] if rng.random() < 0.35 else []
         for i in nan_at:
             where[i] = "nan"
